@@ -673,12 +673,12 @@ impl World {
                 (res, json!({"max_proxy_epoch": max_proxy_epoch}), json!({}))
             }
             Op::RestartFrom { at } => {
-                let snap = if self.snapshots.is_empty() {
+                let snap = if self.snapshots.is_empty() || *at == usize::MAX {
                     None
                 } else {
                     Some(self.snapshots[*at % self.snapshots.len()].clone())
                 };
-                let at_res = if self.snapshots.is_empty() { 0 } else { *at % self.snapshots.len() + 1 };
+                let at_res = if self.snapshots.is_empty() || *at == usize::MAX { 0 } else { *at % self.snapshots.len() + 1 };
                 match mk_service(self.limit, self.ordered, self.ttl, self.quorum, snap) {
                     Ok(svc) => {
                         self.svc = Arc::new(svc);
